@@ -340,3 +340,136 @@ Proof.
   destruct (unfaithful_loses_tasks_l (iszero_cfg mw iv bd sh) h Hm Hne Hr) as (H1 & H2 & H3 & H4 & _).
   cbv zeta. auto.
 Qed.
+
+(* ------------------------------------------------------------------ *)
+(* Seeded change C11-4: inflight is a flag (set by addAndCheck, cleared by the flusher's take-over)
+   instead of a counter. *)
+Definition flag_cstep (cfg : config) (s : state) (c : nat) : option state :=
+  option_map (fun s' => set_inflight s' (Z.min 1 (inflight s'))) (cstep cfg s c).
+Definition flag_bstep (cfg : config) (s : state) (b : nat) (alt : bool) : option state :=
+  match nth_error (fl s) b with
+  | Some (BDec h) => Some (set_fl (set_inflight s 0) (upd (fl s) b (BConfirm h)))
+  | _ => bstep cfg s b alt
+  end.
+Definition flag_step (cfg : config) (s : state) (e : ev) : option state :=
+  match e with
+  | EvC c => flag_cstep cfg s c
+  | EvB b alt => flag_bstep cfg s b alt
+  | _ => step cfg s e
+  end.
+Definition flag_run (cfg : config) (s : state) (sched : list ev) : state :=
+  fold_left (fun s e => match flag_step cfg s e with Some s' => s' | None => s end) sched s.
+
+(* [1;2] is with the flusher (parked before its callback); [3;4] sits in the commander channel, its
+   producer waits for the confirmation; [5;6] is in the hands of a third producer blocked on the send
+   (5 was added by an Add that has returned) *)
+Definition flag_pre : list ev :=
+  [EvCall 0 (CAdd 1 1); EvC 0; EvB 0 false; EvCall 0 (CAdd 2 1); EvC 0; EvC 0;
+   EvB 0 false; EvB 0 false; EvB 0 false; EvC 0;
+   EvCall 0 (CAdd 3 1); EvC 0; EvCall 1 (CAdd 4 1); EvC 1; EvC 1;
+   EvCall 0 (CAdd 5 1); EvC 0; EvCall 2 (CAdd 6 1); EvC 2].
+(* Wait: Flush (nothing), waits for inflight; the flusher finishes [1;2], takes [3;4] over (clears the
+   flag), the third producer's send goes through; Wait passes, waits for the callback on [3;4], returns *)
+Definition flag_mid : list ev :=
+  [EvC 3; EvC 3; EvC 3; EvC 3; EvB 0 false; EvB 0 false; EvB 0 false; EvB 0 false; EvB 0 false; EvC 1; EvC 2;
+   EvC 3; EvC 3; EvB 0 false; EvB 0 false; EvC 3].
+
+Theorem inflight_flag_refuted :
+  let s0 := flag_run cfg2 (init 4) flag_pre in
+  let s1 := flag_run cfg2 s0 (EvCall 3 CWait :: flag_mid) in
+  nth_error (cl s0) 3%nat = Some CIdle /\ nth_error (cl s0) 0%nat = Some CIdle /\ In 5 (accepted s0) /\
+  nth_error (cl s1) 3%nat = Some CIdle /\ ~ In 5 (done_tasks s1) /\ cmd s1 = Some [5; 6].
+Proof. vm_compute. repeat split; try reflexivity; try tauto. intros H; repeat destruct H as [H|H]; try discriminate; exact H. Qed.
+
+(* the counter: the same schedule leaves the Wait waiting for inflight = 0 *)
+Example flag_sched_real_protocol :
+  let s1 := run cfg2 (init 4) (flag_pre ++ EvCall 3 CWait :: flag_mid) in
+  nth_error (cl s1) 3%nat = Some CWSpin /\ inflight s1 = 1.
+Proof. vm_compute. split; reflexivity. Qed.
+
+(* ------------------------------------------------------------------ *)
+(* Seeded change C11-8: Wait flushes inline, outside the waitGroup (no enterExecution / Done around
+   the Flush of a Wait).  A second Wait does not see the first one's callback. *)
+Definition inline_cstep (cfg : config) (s : state) (c : nat) : option state :=
+  match nth_error (cl s) c with
+  | Some (CFl FEnter true) => Some (set_cl s (upd (cl s) c (CFl FRemove true)))
+  | Some (CFl (FDone ok) true) => Some (set_cl s (upd (cl s) c CWSpin))
+  | _ => cstep cfg s c
+  end.
+Definition inline_run (cfg : config) (s : state) (sched : list ev) : state :=
+  fold_left (fun s e => match (match e with EvC c => inline_cstep cfg s c | _ => step cfg s e end) with
+                        | Some s' => s' | None => s end) sched s.
+
+Definition cfg3 : config := mkCfg 3 1000 [] nonempty.
+(* Add 1 returns; client 1's Wait has removed [1] and is about to run the callback *)
+Definition inline_pre : list ev := [EvCall 0 (CAdd 1 1); EvC 0; EvCall 1 CWait; EvC 1; EvC 1].
+
+Theorem wait_inline_flush_refuted :
+  let s0 := inline_run cfg3 (init 3) inline_pre in
+  let s1 := inline_run cfg3 s0 (EvCall 2 CWait :: [EvC 2; EvC 2; EvC 2; EvC 2; EvC 2; EvC 2; EvC 2]) in
+  nth_error (cl s0) 2%nat = Some CIdle /\ nth_error (cl s0) 0%nat = Some CIdle /\ accepted s0 = [1] /\
+  nth_error (cl s1) 2%nat = Some CIdle /\ done_tasks s1 = [] /\ nth_error (cl s1) 1%nat = Some (CFl (FExec [1]) true).
+Proof. vm_compute. repeat split; reflexivity. Qed.
+
+Example wait_inline_sched_real_protocol :
+  let s1 := run cfg3 (init 3) (inline_pre ++ EvCall 2 CWait :: [EvC 2; EvC 2; EvC 2; EvC 2; EvC 2; EvC 2; EvC 2]) in
+  nth_error (cl s1) 2%nat = Some CWWait /\ wg s1 = 1.
+Proof. vm_compute. split; reflexivity. Qed.
+
+(* ------------------------------------------------------------------ *)
+(* Seeded change C11-5: chunkContainer.RemoveAll answers nil without touching the tasks while the
+   accumulated size is 0 - tasks of declared size 0 stay in the container whoever flushes. *)
+Definition lazy_cstep (cfg : config) (s : state) (c : nat) : option state :=
+  match nth_error (cl s) c with
+  | Some (CFl FRemove w) => Some (set_cl s (upd (cl s) c (CFl (FExec (if csize s =? 0 then [] else cont s)) w)))
+  | _ => cstep cfg s c
+  end.
+Definition lazy_run (cfg : config) (s : state) (sched : list ev) : state :=
+  fold_left (fun s e => match (match e with EvC c => lazy_cstep cfg s c | _ => step cfg s e end) with
+                        | Some s' => s' | None => s end) sched s.
+
+Theorem remove_nothing_at_size_zero_refuted :
+  let s0 := lazy_run cfg3 (init 2) [EvCall 0 (CAdd 1 0); EvC 0; EvCall 0 (CAdd 2 0); EvC 0] in
+  let s1 := lazy_run cfg3 s0 (EvCall 1 CWait :: [EvC 1; EvC 1; EvC 1; EvC 1; EvC 1; EvC 1; EvC 1]) in
+  nth_error (cl s0) 1%nat = Some CIdle /\ accepted s0 = [1; 2] /\
+  nth_error (cl s1) 1%nat = Some CIdle /\ done_tasks s1 = [] /\ cont s1 = [1; 2].
+Proof. vm_compute. repeat split; reflexivity. Qed.
+
+(* ------------------------------------------------------------------ *)
+(* Seeded change C11-6: Flush goes through a SingleFlight - a caller that arrives while another
+   client's flush is past its start waits for that flush and returns ITS result without flushing.
+   (A waiting follower is parked in [CFl (FRet false) w], a program counter the real protocol never
+   rests in.) *)
+Definition f_running (f : fpc) : bool := match f with FRemove | FExec _ | FDone _ => true | _ => false end.
+Definition in_flight (s : state) : bool :=
+  existsb (fun p => match p with CFl f _ => f_running f | _ => false end) (cl s) ||
+  existsb (fun p => match p with BTick f _ | BExit f => f_running f | _ => false end) (fl s).
+Definition sf_cstep (cfg : config) (s : state) (c : nat) : option state :=
+  match nth_error (cl s) c with
+  | Some (CFl FEnter w) =>
+    if in_flight s then Some (set_cl s (upd (cl s) c (CFl (FRet false) w))) else cstep cfg s c
+  | Some (CFl (FRet _) w) =>
+    if in_flight s then None else Some (set_cl s (upd (cl s) c (if w then CWSpin else CIdle)))
+  | _ => cstep cfg s c
+  end.
+Definition sf_run (cfg : config) (s : state) (sched : list ev) : state :=
+  fold_left (fun s e => match (match e with EvC c => sf_cstep cfg s c | _ => step cfg s e end) with
+                        | Some s' => s' | None => s end) sched s.
+
+(* client 1's Flush has removed [1] and is about to run the callback; Add 2 returns (2 in the container) *)
+Definition sf_pre : list ev :=
+  [EvCall 0 (CAdd 1 1); EvC 0; EvCall 1 CFlush; EvC 1; EvC 1; EvCall 0 (CAdd 2 1); EvC 0].
+(* client 2's Wait joins the flight; the callback on [1] returns; the Wait returns *)
+Definition sf_mid : list ev := [EvC 2; EvC 1; EvC 1; EvC 2; EvC 2; EvC 2; EvC 2].
+
+Theorem shared_flush_refuted :
+  let s0 := sf_run cfg3 (init 3) sf_pre in
+  let s1 := sf_run cfg3 s0 (EvCall 2 CWait :: sf_mid) in
+  nth_error (cl s0) 2%nat = Some CIdle /\ nth_error (cl s0) 0%nat = Some CIdle /\ accepted s0 = [1; 2] /\
+  nth_error (cl s1) 2%nat = Some CIdle /\ done_tasks s1 = [1] /\ cont s1 = [2].
+Proof. vm_compute. repeat split; reflexivity. Qed.
+
+Example shared_flush_sched_real_protocol :
+  let s1 := run cfg3 (init 3) (sf_pre ++ EvCall 2 CWait :: sf_mid) in
+  nth_error (cl s1) 2%nat = Some CWGuard /\ executed s1 = [[1]; [2]].
+Proof. vm_compute. split; reflexivity. Qed.
